@@ -99,7 +99,8 @@ def catalogue(quick=True):
                [block("rb", [rule(P("a", "md"), [C("y", "m")]), rule(P("b", "hi"), [C("y", "m")], weight="1/2"),
                              rule(AND(P("y", "m"), P("a", "hi")), [C("y", "l")]), rule(P("y", "l", "not"), [C("y", "s")], weight="1/4")])])
     cs.append(e)
-    for cls, kw in [("Highest", dict(rules=2)), ("First", dict(rules=2, threshold=0))]:
+    for cls, kw in [("Highest", dict(rules=2)), ("First", dict(rules=2, threshold=0)), ("Last", dict(rules=3, threshold=0)), ("Lowest", dict(rules=3)),
+                    ("Threshold", dict(comparator=">", threshold="1/8")), ("Proportional", {})]:
         e2 = copy.deepcopy(e)
         e2["name"] = f"output-in-antecedent-{cls}"
         e2["blocks"][0]["activation"] = activation(cls, **kw)
